@@ -1,5 +1,6 @@
 import CaddyModel.C02.Props
 import CaddyModel.C02.Witness
+import CaddyModel.C02.Key
 open CaddyModel.C02
 #print axioms current_config_holds_its_addresses
 #print axioms retained_never_unbound
@@ -32,3 +33,8 @@ open CaddyModel.C02
 #print axioms reorder_breaks_it
 #print axioms dropped_address_closed_old_code_fails
 #print axioms served_by_old_or_new_old_code_fails
+#print axioms bookKey_ignores_permission_bits
+#print axioms bookKey_is_bare_path
+#print axioms usageKey_eq_bookKey_of_not_unix
+#print axioms parseAddr_size_pos
+#print axioms usageKey_vs_bookKey_with_permission_bits
